@@ -432,10 +432,12 @@ class Interp:
                         cur = ('const', t[1], ())
                     else:
                         cur = t
-                elif v[0] in ('cstr', 'sliceref'):
-                    cur = ('val', v, ())
-                else:
+                elif v[0] == 'top':
                     return None
+                else:
+                    # reference-like abstract values (constant strings, slices, rule-defined string atoms):
+                    # the referent is denoted by the same abstract value
+                    cur = ('val', v, ())
             elif k == 'field':
                 cur = cur[:2] + (cur[2] + (('f', e['i']),),)
             elif k == 'index':
@@ -646,7 +648,7 @@ class Interp:
                 inner = dict(rv['place'])
                 inner['p'] = inner['p'][:-1]
                 tv = self.read(w, self.resolve(w, depth, inner))
-                if tv[0] in ('cstr', 'sliceref', 'ref', 'sym', 'top'):
+                if tv[0] != 'adt' and tv[0] != 'tuple':
                     v = tv
             return [(w, v if v is not None else ('ref', t))]
         if k == 'bin':
@@ -755,6 +757,16 @@ class Interp:
                     if res == {False}:
                         return [(w, FALSE)]
             return [(w, BOOL)]
+        if a[0] in ('sym', 'symoff') and b[0] == 'int' and int_singleton(b) is not None \
+                and op.replace('WithOverflow', '') in ('Add', 'Sub'):
+            base = a[1]
+            k = a[2] if a[0] == 'symoff' else 0
+            c = int_singleton(b)
+            k = k + c if op.startswith('Add') else k - c
+            v = ('symoff', base, k) if k != 0 else ('sym', base)
+            if op.endswith('WithOverflow'):
+                return [(w, ('tuple', (v, FALSE)))]
+            return [(w, v)]
         if op.endswith('WithOverflow'):
             v = int_arith(op, a, b, lty)
             return [(w, ('tuple', (v, FALSE)))]
